@@ -1,11 +1,30 @@
 #!/usr/bin/env python3
 """Run verus on a generated file and return parsed diagnostics."""
-import json, subprocess, sys, time, os
+import os, json, subprocess, sys, time, os
 
-def run_verus(path, extra=(), timeout=1800):
+class _P:
+    pass
+
+
+def run_verus(path, extra=(), timeout=1200):
+    """one Verus run in its own process group; a run that exceeds `timeout` seconds of wall clock is killed with all its z3 children
+    (Z3's resource limit does not bound memory or time reliably: a 25-minute, 18 GB query was observed) and reported as a tool-level
+    diagnostic `timed out` (=> undecided, exit 2), never as a verification result"""
+    import signal
     cmd = ['verus', path, '--error-format=json', '--output-json', '--time'] + list(extra)
     t0 = time.time()
-    p = subprocess.run(cmd, stdout=subprocess.PIPE, stderr=subprocess.PIPE, text=True, timeout=timeout)
+    pr = subprocess.Popen(cmd, stdout=subprocess.PIPE, stderr=subprocess.PIPE, text=True, start_new_session=True)
+    p = _P()
+    try:
+        p.stdout, p.stderr = pr.communicate(timeout=timeout)
+        p.returncode = pr.returncode
+    except subprocess.TimeoutExpired:
+        try: os.killpg(pr.pid, signal.SIGKILL)
+        except Exception: pass
+        try: pr.communicate(timeout=30)
+        except Exception: pass
+        p.stdout = ''; p.returncode = -9
+        p.stderr = json.dumps(dict(level='error', message='verus timed out after %d s of wall clock (killed)' % timeout, spans=[], children=[]))
     wall = time.time() - t0
     diags = []
     other = []
